@@ -234,6 +234,7 @@ TEMPLATES = [
     (" ip ospf authentication-key 0 {}", ALL, "keep"),
     (" ip ospf message-digest-key 1 md5 7 {}", ALL, "keep"),
     (" vrrp 2 authentication text {}", ALL, "keep"),
+    ("isis password {} level-1", NOT_NUM, "keep"),
     ("domain-password {} authenticate snp validate", ALL, "keep"),
     ("area-password {}", ALL, "keep"),
     (" standby 1 authentication md5 key-string 7 {} timeout 123", ALL, "keep"),
@@ -286,14 +287,14 @@ TEMPLATES = [
     ("cable shared-secret {}", ALL, "scrub"),
     ("wpa-psk ascii {}", ALL, "scrub"),
     ("ldap-login-password x{}", ALL, "scrub"),
-    ("failover key {}", ALL, "scrub"),
-    ("vpdn username bob password {}", ALL, "scrub"),
+    ("failover key {}", ALL, "keep"),
+    ("vpdn username bob password {}", ALL, "keep"),
     ("key-string 7 {}", ALL, "scrub"),
-    (" neighbor {ip} password 7 {}", ALL, "scrub"),
+    (" neighbor {ip} password 7 {}", ALL, "keep"),
     ("message-digest-key 1 md5 7 {}", ALL, "scrub"),
-    ("wlccp ap username bob password 7 {}", ALL, "scrub"),
-    ("set protocols bgp group g neighbor {ip} authentication-key x md5 1 key {};", ALL, "scrub"),
-    ("set system radius-server {ip} secret {};", ALL, "scrub"),
+    ("wlccp ap username bob password 7 {}", ALL, "keep"),
+    ("set protocols bgp group g neighbor {ip} authentication-key x md5 1 key {};", ALL, "keep"),
+    ("set system radius-server {ip} secret {};", ALL, "keep"),
     ("set system root-authentication encrypted-password \"{}\"", ALL, "scrub"),
     ("set system login user bob authentication ssh-rsa \"ssh-rsa {} bob@host\"", ("text",), "scrub"),
 ]
